@@ -40,6 +40,7 @@ def dispatch (line : String) : String :=
   | "c02s" :: rest => Drive.C05.handle rest
   | "c15s" :: rest => Drive.C05.handle rest
   | "c19c" :: rest => Drive.Conn.handle "c03" rest
+  | "c09c" :: rest => Drive.Conn.handle "c03" rest
   | "c05c" :: rest => Drive.Conn.handle "c05c" rest
   | "c04" :: rest => Drive.Sim.handle "c04" rest
   | "c01w" :: rest => Drive.Sim.handle "c04" rest
